@@ -29,10 +29,26 @@ def build(st, k, garb, with_comments, formfeed):
     return "\n".join(lines) + "\n", exp, lines[exp - 1]
 
 
+def implicit_main(st):
+    """the main program of st without its PROGRAM statement, as the only unit (None if there is none)"""
+    op = [i for i, s in enumerate(st) if s.role == "open" and s.kind == "program"]
+    if not op:
+        return None
+    i = op[0]
+    j = next(k for k in range(i, len(st)) if st[k].role == "close" and st[k].cid == st[i].cid)
+    body = [s.copy() for s in st[i + 1:j + 1]]
+    body[-1].text = "end"
+    return body
+
+
 def check_one(arg):
     std, seed, k, gi, with_comments, keep, formfeed = arg
     import fp
-    st, _ = gen.gen_program(seed, std, size=0.5)
+    st, _ = gen.gen_program(abs(seed), std, size=0.5)
+    if seed < 0:                      # negative seed: the implicit-main variant of the same program
+        st = implicit_main(st)
+        if st is None or len(st) < 3:
+            return []
     k = k % len(st)
     src, line, text = build(st, k, GARBAGE[gi], with_comments, formfeed)
     o = fp.parse(src, std=std, ignore_comments=not keep)
@@ -70,6 +86,10 @@ def run(ctx):
             gi = (k + p) % len(GARBAGE)
             wc = (k + p) % 3 == 0
             jobs.append((std, seed, k, gi, wc, wc and k % 2 == 0, wc and k % 4 == 0))
+        if p % 3 == 0:                # a main program without PROGRAM statement: every position but the END
+            im = implicit_main(st)
+            for k in range(len(im) - 1 if im else 0):
+                jobs.append((std, -seed, k, (k + p) % len(GARBAGE), k % 3 == 0, k % 6 == 0, False))
     res = pool.pmap(check_one, jobs, chunksize=16)
     failures = []
     for job, (st, r) in zip(jobs, res):
